@@ -80,7 +80,7 @@ impl<T, I: DoubleEndedIterator<Item = T> + ExactSizeIterator> DEIter<T> for I {}
 
 /// Object-safe query view of a wavelet tree (so that the monitors are compiled once per element
 /// type rather than once per tree type).
-pub trait DynTree<T: Sym>: Debug + Send + Sync {
+pub trait DynTree<T: Sym>: Debug {
     fn alias(&self) -> &'static str;
     fn kind(&self) -> TreeKind;
     fn pfs(&self) -> bool;
@@ -269,7 +269,7 @@ pub fn elem_bits(t: &str) -> u32 {
 // rank/select quad vectors
 // ---------------------------------------------------------------------------------------------
 
-pub trait QuadApi: Sized + Clone + PartialEq + Debug + Send + Sync + 'static {
+pub trait QuadApi: Sized + Clone + PartialEq + Debug + 'static {
     const NAME: &'static str;
     const BLOCK: usize;
     fn b_new_u8(v: &[u8]) -> Self;
@@ -411,7 +411,7 @@ impl_quad_api!(RSQVector512, 512);
 // rank/select bit vectors
 // ---------------------------------------------------------------------------------------------
 
-pub trait BinApi: Sized + Clone + PartialEq + Debug + Send + Sync + 'static {
+pub trait BinApi: Sized + Clone + PartialEq + Debug + 'static {
     const NAME: &'static str;
     fn b_new(bv: BitVector) -> Self;
     fn b_from(bv: BitVector) -> Self;
